@@ -88,16 +88,19 @@ def forbidden_tokens() -> List[str]:
 
 def obligations(prop: str) -> List[str]:
     """Names listed after `OBLIGATIONS:` in the header comment of Props/<prop>.lean."""
-    src = (LEAN_DIR / "Deepali" / "Props" / f"{prop}.lean").read_text()
+    f = LEAN_DIR / "Deepali" / "Props" / f"{prop}.lean"
+    if not f.exists():
+        return []
+    src = f.read_text()
     m = re.search(r"OBLIGATIONS:(.*?)(?:\n\s*\n|-/)", src, re.S)
     if not m:
         return []
     return [t for t in m.group(1).split() if re.match(r"^[A-Za-z_][A-Za-z0-9_']*$", t)]
 
 
-def audit(prop: str, names: Sequence[str]) -> Dict[str, dict]:
+def audit(prop: str, names: Sequence[str], extra_modules: Sequence[str] = ()) -> Dict[str, dict]:
     """`#print axioms` for every obligation; returns name -> {ok, axioms|error}."""
-    body = [f"import Deepali.Props.{prop}", "open Deepali"]
+    body = [f"import Deepali.Props.{m}" for m in [prop, *extra_modules]] + ["open Deepali"]
     for n in names:
         body.append(f"#print axioms {n}")
     with tempfile.NamedTemporaryFile("w", suffix=".lean", dir=str(LEAN_DIR), delete=False) as fh:
